@@ -360,6 +360,7 @@ def layout(ctx: Any) -> List[Ob]:
                 if c.args and self_attr(c.args[-1], rinc.params[0]) == 'now':
                     n_now += 1
     obs.append(ob(R, rinc, f'{n_now}/{n_ctor} constructors end with self.now', 'every decoded record is created at the datagram\'s arrival time', n_ctor >= 7 and n_now == n_ctor))
+    obs.extend(ctor_verbatim_obligations(ctx, R))
     return obs
 
 
@@ -718,6 +719,67 @@ def flushbit(ctx: Any) -> List[Ob]:
     return obs
 
 
+VERBATIM_EXEMPT = {
+    # (class, parameter): why the constructor does not keep the value as given
+    ('DNSEntry', 'class_'): 'split into the 15-bit class and the unique / QU bit (C01.FLUSHBIT, C20.CONGRUENCE)',
+    ('DNSNsec', 'rdtypes'): 'kept as a sorted list (the order of types is not part of the record)',
+    ('DNSRecord', 'created'): 'defaults to the current time when not given',
+    ('DNSQuestion', 'class_'): 'split into class and QU bit',
+}
+
+
+def ctor_verbatim_obligations(ctx: Any, R: str) -> List[Ob]:
+    """What the decoder hands to a record constructor is what the record holds: every constructor of the record classes
+    stores each wire-valued parameter unchanged in an attribute (`self.x = x`), besides any derived twin (`x.lower()`).  A
+    constructor that normalises a value (clamps a TTL, re-cases a name) makes the decoded record differ from the bytes."""
+    prog = ctx.prog
+    obs: List[Ob] = []
+    for c in sorted(prog.classes.values(), key=lambda x: x.full):
+        if not c.full.startswith('zeroconf._dns.DNS') or c.name in ('DNSRRSet',):
+            continue
+        init = c.methods.get('__init__')
+        if init is None:
+            continue
+        me = init.params[0]
+        sup = [x for x in walk_local_ordered(init.node) if isinstance(x, ast.Call) and isinstance(x.func, ast.Attribute) and x.func.attr == '__init__']
+        passed_up = {a.id for x in sup for a in x.args if isinstance(a, ast.Name)}
+        for p_ in init.params[1:]:
+            if p_ in passed_up:
+                continue  # stored by the base class, checked there
+            why = VERBATIM_EXEMPT.get((c.name, p_))
+            if why is not None:
+                obs.append(ob(R, init, f'{c.name}({p_})', f'not kept verbatim on purpose: {why}', True))
+                continue
+            kept = any(isinstance(st, (ast.Assign, ast.AnnAssign)) and self_attr(t, me) and isinstance(st.value, ast.Name) and st.value.id == p_ for t, st in attr_stores(init.node))
+            obs.append(ob(R, init, f'self.<attr> = {p_}', f'{c.name} keeps `{p_}` exactly as it was given (as decoded from the wire)', kept, f'no attribute of {c.name} is assigned the unmodified `{p_}`'))
+    return obs
+
+
+def nsec_reader_obligation(ctx: Any, R: str) -> Ob:
+    """Reader of the NSEC type bitmap: bit b (MSB first) of octet i of window w is type b + 256 w + 8 i."""
+    prog = ctx.prog
+    r = prog.func(INC + '._read_bitmap')
+    test_ok = val_ok = False
+    from .common import expand
+
+    for n in walk_local_ordered(r.node):
+        if isinstance(n, ast.If) and isinstance(n.test, ast.BinOp) and isinstance(n.test.op, ast.BitAnd):
+            sh = n.test.right
+            test_ok = isinstance(sh, ast.BinOp) and isinstance(sh.op, ast.RShift) and prog.try_fold(r.module, sh.left) == (True, 0x80)
+            bitvar = norm(sh.right) if test_ok else '?'
+            for c in ast.walk(n):
+                if isinstance(c, ast.Call) and call_name(c) == 'append':
+                    try:
+                        p = lf.poly(prog, r.module, expand(r, c.args[0]), lambda x: x.id if isinstance(x, ast.Name) else (norm(x) if isinstance(x, ast.Subscript) else None))
+                        names = {k[0][0]: v for k, v in p.items() if k and len(k) == 1}
+                        val_ok = names.get(bitvar) == 1 and sorted(names.values()) == [1, 8, 256] and p.get((), 0) == 0 and all(len(k) <= 1 for k in p)
+                    except lf.NotLinear:
+                        val_ok = False
+    rng = [n for n in walk_local_ordered(r.node) if isinstance(n, ast.For) and isinstance(n.iter, ast.Call) and norm(n.iter.func) == 'range']
+    rng_ok = any([prog.try_fold(r.module, a)[1] for a in n.iter.args] in ([0, 8], [8]) for n in rng)
+    return ob(R, r, 'if byte & (0x80 >> bit): rdtypes.append(bit + window * 256 + i * 8)', 'reader: bit b (MSB first, b in 0..7) of byte i of window w is type b + 256 w + 8 i', test_ok and val_ok and rng_ok)
+
+
 @rule('C01.NSECBITS', 'N', expect_min=2)
 def nsecbits(ctx: Any) -> List[Ob]:
     """NSEC bit numbering: the writer sets bit (0x80 >> t % 8) of byte t // 8, the
@@ -735,24 +797,7 @@ def nsecbits(ctx: Any) -> List[Ob]:
             v = st.value
             mask_ok = prog.try_fold(w.module, v.left) == (True, 0x80) and isinstance(v.right, ast.BinOp) and isinstance(v.right.op, ast.Mod) and prog.try_fold(w.module, v.right.right) == (True, 8)
     obs.append(ob(R, w, 'byte = rdtype // 8 ; bitmap[byte] |= 0x80 >> rdtype % 8', 'writer: type t is bit (0x80 >> t mod 8) of byte t div 8', byte_ok and mask_ok))
-    r = prog.func(INC + '._read_bitmap')
-    test_ok = val_ok = False
-    for n in walk_local_ordered(r.node):
-        if isinstance(n, ast.If) and isinstance(n.test, ast.BinOp) and isinstance(n.test.op, ast.BitAnd):
-            sh = n.test.right
-            test_ok = isinstance(sh, ast.BinOp) and isinstance(sh.op, ast.RShift) and prog.try_fold(r.module, sh.left) == (True, 0x80)
-            bitvar = norm(sh.right) if test_ok else '?'
-            for c in ast.walk(n):
-                if isinstance(c, ast.Call) and call_name(c) == 'append':
-                    try:
-                        p = lf.poly(prog, r.module, c.args[0], lambda x: x.id if isinstance(x, ast.Name) else None)
-                        names = {k[0][0]: v for k, v in p.items() if k and len(k) == 1}
-                        val_ok = names.get(bitvar) == 1 and sorted(names.values()) == [1, 8, 256] and p.get((), 0) == 0
-                    except lf.NotLinear:
-                        val_ok = False
-    rng = [n for n in walk_local_ordered(r.node) if isinstance(n, ast.For) and isinstance(n.iter, ast.Call) and norm(n.iter.func) == 'range']
-    rng_ok = any([prog.try_fold(r.module, a)[1] for a in n.iter.args] in ([0, 8], [8]) for n in rng)
-    obs.append(ob(R, r, 'if byte & (0x80 >> bit): rdtypes.append(bit + window * 256 + i * 8)', 'reader: bit b (MSB first, b in 0..7) of byte i of window w is type b + 256 w + 8 i', test_ok and val_ok and rng_ok))
+    obs.append(nsec_reader_obligation(ctx, R))
     return obs
 
 
